@@ -35,6 +35,26 @@ class OddAttr(Exception):
     pass
 
 
+class _FlakyState:
+    fails_left = 0
+    made = 0
+
+
+@api.behavior(instance_mode="single")
+@api.expose
+class Flaky:
+    """a 'single' class whose creation fails the first few times (a resource it needs is not up yet)"""
+
+    def __init__(self):
+        if _FlakyState.fails_left > 0:
+            _FlakyState.fails_left -= 1
+            raise OSError("backend not reachable yet")
+        _FlakyState.made += 1
+
+    def echo(self, tok):
+        return [tok, _FlakyState.made]
+
+
 class _Held:
     def __init__(self, tok):
         self.tok = tok
@@ -117,6 +137,7 @@ class Victim:
 # ---------------------------------------------------------------------------------------------
 # message specs -> bytes (the harness's own encoder; payloads come from the real serializers)
 _SER_CODES = None
+_CD_CODES = None
 BASES = ["connect", "invoke", "boom", "ping", "ow", "batch", "garbage", "unknown_member", "private_member", "gen", "blob", "daemon_ping", "it", "hold", "classdict"]
 OBJS = ["tok", "tok", "tok", "nope", "Pyro.Daemon"]
 BOUND8 = [0, 1, 0x7f, 0x80, 0xff]
@@ -361,7 +382,7 @@ class HostileWorld(World):
     PROBES = ["pool_full_refusal", "exc_response_fallback", "unknown_serializer", "oversize_refused", "truncated",
               "garbage", "hostile_after_handshake", "hostile_before_handshake", "rst_end", "witness_calls_ok", "fresh_client_ok",
               "nasty_exception", "multiplex", "thread", "commtimeout", "stalling_peer", "disconnect_hook_raised", "short_linger",
-              "logwire", "abandoned_stream_expired", "dribbling_refused_peer"]
+              "logwire", "abandoned_stream_expired", "dribbling_refused_peer", "witness_stream", "witness_flaky_single"]
     RULE = ("plan = (server type, COMMTIMEOUT, pool size 1..4, 1-2 witnesses x 3-6 calls, 1-3 hostile peers each with a script of "
             "1-4 message specs = valid base message + field mutations + truncation, end by close or RST, gaps, fragmentation, "
             "selector shuffle, scheduling probabilities; 25% of the plans give the daemon a clientDisconnect hook that raises (for "
@@ -413,6 +434,32 @@ class HostileWorld(World):
             plan["lifetime"] = 1.0
         if rng.random() < 0.15:
             plan["logwire"] = True
+        if rng.random() < 0.4:
+            plan["witness_kinds"] = [rng.choice(["echo", "echo", "stream", "flaky"]) for _ in range(6)]
+            if servertype == "thread" and "stream" in plan["witness_kinds"] and not plan.get("lifetime"):
+                # hostile peers vanish while witnesses open streams: pre-emption inside the daemon's stream bookkeeping
+                plan["cd_lines"] = True
+                plan["p_line"] = max(plan.get("p_line", 0.0), rng.choice([0.1, 0.3]))
+                plan["witness_kinds"] = ["stream", "stream", "echo", "stream", "stream", "flaky"]
+                plan["witness_gap"] = 0.0
+                sid = SER_IDS[plan["serializer"]]
+                for k in range(rng.randint(2, 3)):
+                    # properly connected peers that open streams and vanish, one after the other, while the witnesses stream
+                    peers.append({"start": rng.choice([0, 0.001, 0.01, 0.02]), "gap": rng.choice([0, 0.001]), "read": True,
+                                  "end": rng.choice(["close", "rst"]),
+                                  "msgs": [{"base": "connect", "obj": "tok", "ser": sid, "arg": 0, "seq": 0, "mut": []}] +
+                                          [{"base": rng.choice(["gen", "it"]), "obj": "tok", "ser": sid, "arg": rng.randrange(9), "seq": 1 + j, "mut": []}
+                                           for j in range(rng.randint(1, 2))]})
+            if plan.get("lifetime"):
+                # (with a stream lifetime of 1 s a witness that is held up by hostile traffic legitimately loses its stream)
+                plan["witness_kinds"] = ["echo" if k == "stream" else k for k in plan["witness_kinds"]]
+            plan["flaky_fails"] = rng.choice([0, 1, 1, 2])
+            if plan["flaky_fails"]:
+                # hostile peers call the flaky class too (so that a creation failure may have happened on their behalf)
+                for peer in peers:
+                    for m in peer["msgs"]:
+                        if m["base"] in ("invoke", "ow") and rng.random() < 0.5:
+                            m["obj"] = "flaky"
         if servertype == "thread" and rng.random() < 0.3:
             # workers encode replies for hostile peers and witnesses at the same time: pre-emption inside the serializers,
             # and the hostile peers speak the witnesses' serializer so that they share its encoder
@@ -441,7 +488,13 @@ class HostileWorld(World):
         return plan
 
     def line_codes(self, plan):
-        global _SER_CODES
+        global _SER_CODES, _CD_CODES
+        if plan.get("cd_lines"):
+            if _CD_CODES is None:
+                from .. import sched as S
+                _CD_CODES = S.code_objects(SV.Daemon._clientDisconnect, SV.Daemon._streamResponse, SV.Daemon._housekeeping)
+            if not plan.get("ser_lines"):
+                return _CD_CODES
         if not plan.get("ser_lines"):
             return ()
         if _SER_CODES is None:
@@ -449,7 +502,7 @@ class HostileWorld(World):
             _SER_CODES = S.code_objects(*[v for v in vars(SER).values()
                                           if (isinstance(v, type) and v.__module__ == SER.__name__) or
                                           (hasattr(v, "__code__") and getattr(v, "__module__", "") == SER.__name__)])
-        return _SER_CODES
+        return _SER_CODES + (_CD_CODES if plan.get("cd_lines") else [])
 
     # ------------------------------------------------------------------
     def scenario(self, ctx):
@@ -495,6 +548,9 @@ class HostileWorld(World):
                      daemon_cls=HookDaemon if mode else None)
         victim = Victim(sched)
         uri = srv.register(victim, "tok")
+        _FlakyState.fails_left = plan.get("flaky_fails", 0)
+        _FlakyState.made = 0
+        furi = srv.register(Flaky, "flaky")
         bound = [0]
         stalled = []
         lat = [0.0]
@@ -514,11 +570,28 @@ class HostileWorld(World):
                 return
             witness_conns.add(getattr(getattr(p._pyroConnection, "sock", None), "conn", None))
             bound[0] += 1
+            wk = plan.get("witness_kinds") or []
             for i in range(plan["witness_calls"]):
                 tok = "W%d.%d" % (wi, i)
                 t0 = sched.now
+                kind = wk[(wi * 7 + i) % len(wk)] if wk else "echo"
                 try:
-                    res.append((tok, "ok", p.echo(tok)))
+                    if kind == "stream":
+                        # an item stream of its own, read to the end while hostile peers come and go
+                        ctx.probe("witness_stream")
+                        items = list(p.gen(3))
+                        res.append((tok, "ok", [tok, 0] if items == [0, 1, 2] else ["stream-items", items]))
+                    elif kind == "flaky":
+                        # a 'single' class whose creation may fail a few times: an error reply is fine, silence is not
+                        ctx.probe("witness_flaky_single")
+                        try:
+                            res.append((tok, "ok", p._pyroInvoke("echo", [tok], {}, objectId="flaky")))     # over its own connection
+                        except OSError as x:
+                            if "backend not reachable" not in str(x):
+                                raise
+                            res.append((tok, "ok", [tok, "creation-failed"]))
+                    else:
+                        res.append((tok, "ok", p.echo(tok)))
                 except Exception as x:  # noqa
                     res.append((tok, "ERR", type(x).__name__, str(x)[:100]))
                 lat[0] = max(lat[0], sched.now - t0)
